@@ -109,6 +109,7 @@ class Session:
         self.states = []
         self.calls = []
         self.suspensions = []
+        self.dpr = []  # RE.deferred_pause_requested sampled at every msg_hook call
         self.pos_info = {}
         self.unwind_at = sch.get("unwind_at")
 
@@ -170,7 +171,7 @@ class Session:
 
         obs = Observation()
         obs.harness_error = None
-        obs.extra = {}
+        obs.extra = {"dpr": self.dpr}
         counter = [0]
 
         def fake_uuid4():
@@ -273,6 +274,7 @@ class Session:
     def _msg_hook(self, msg):
         self.msgs.append(msg)
         self.timeline.append(("msg", len(self.msgs) - 1, msg.command))
+        self.dpr.append(bool(self.RE.deferred_pause_requested))
 
     def _state_hook(self, new, old):
         self.states.append((str(new), str(old)))
@@ -299,6 +301,8 @@ class Session:
             rec["exc"] = e
             rec["outcome"] = "raise"
         rec["state_after"] = str(RE.state)
+        rec["n_ret"] = self.loop.nsteps - self.base
+        rec["dpr_after"] = bool(RE.deferred_pause_requested)
         rec["interrupted_flag"] = RE._interrupted
         rec["ndocs"] = len(self.docs)
         rec["nmsgs"] = len(self.msgs)
@@ -313,10 +317,28 @@ class Session:
             self.timeline.append(("state_after_drain", rec["state_drained"]))
         return rec
 
+    def _tracked(self, plan):
+        """Transparent wrapper that records how the top-level plan generator ended."""
+        from bluesky.utils import ensure_generator
+
+        try:
+            ret = yield from ensure_generator(plan)
+        except GeneratorExit:
+            self.timeline.append(("plan_end", "closed"))
+            raise
+        except BaseException as e:
+            self.timeline.append(("plan_end", "raised", type(e).__name__))
+            raise
+        else:
+            self.timeline.append(("plan_end", "returned"))
+            return ret
+
     def _script(self, RE, Msg, RunEngineInterrupted):
         scn = self.scn
         subs, md = scn.call_args(self.d)
         plan = scn.plan(self.d)
+        if getattr(scn, "track", True):
+            plan = self._tracked(plan)
         if subs is None:
             rec = self._call("RE", lambda: RE(plan, **md))
         else:
@@ -331,6 +353,7 @@ class Session:
             k += 1
             rec = self._call(dec, getattr(RE, dec))
         self.ndecisions = k
+        self.n_main = self.loop.nsteps - self.base  # injection positions beyond this would land in the probe call
         if scn.probe and str(RE.state) == "idle":
             self.timeline.append(("probe",))
             self._call("probe", lambda: RE(scn.probe_plan(self.d) if hasattr(scn, "probe_plan") else [Msg("null")]))
@@ -343,11 +366,12 @@ class Session:
     def _positions(self, obs):
         """Injection points that exist in this execution: (n, 0) before handle n, (n, j) inside it."""
         pts = []
-        for n, (name, ncalls) in enumerate(obs.handle_log):
+        n_main = getattr(self, "n_main", len(obs.handle_log))
+        for n, (name, ncalls) in enumerate(obs.handle_log[:n_main]):
             pts.append((n, 0))
             for j in range(1, ncalls):
                 pts.append((n, j))
-        pts.append((len(obs.handle_log), 0))
+        pts.append((min(n_main, len(obs.handle_log)), 0))
         return pts
 
     def _digest(self, obs):
